@@ -330,6 +330,10 @@ class Library:
         f = {}
         f['systemError__int'] = 'static inline exc_t systemError__int(int code) { return (exc_t)EXC_system_error; }'
         f['systemError__exc_t'] = 'static inline exc_t systemError__exc_t(exc_t e) { return (exc_t)EXC_system_error; }'
+        f['ext__max__int64_t'] = 'static inline int64_t ext__max__int64_t(void) { return INT64_MAX; }   /* numeric_limits<int64_t>::max() */'
+        f['ext__min__int64_t'] = 'static inline int64_t ext__min__int64_t(void) { return INT64_MIN; }'
+        f['ext__max__int'] = 'static inline int ext__max__int(void) { return 2147483647; }'
+        f['ext__max__uint64_t'] = 'static inline uint64_t ext__max__uint64_t(void) { return UINT64_MAX; }'
         f['str_t__ctor0'] = 'static inline str_t str_t__ctor0(void) { return STR_EMPTY; }'
         f['str_t__empty'] = 'static inline _Bool str_t__empty(str_t s) { return s == STR_EMPTY; }'
         f['str_t__op_eq'] = 'static inline _Bool str_t__op_eq(str_t a, str_t b) { return a == b; }'
